@@ -214,8 +214,10 @@ def items(ctx):
     for mname, knd in mats:
         if knd == "abstract":
             continue
+        # fluids / Custom / Void only have to keep their dimensions: one path step less than solids
+        ml = maxlen if knd == "solid" else maxlen - 1
         for sh in shapes:
-            out.append({"kind": "single", "shape": sh, "material": mname, "npts": npts, "maxlen": maxlen, "scale": scale})
+            out.append({"kind": "single", "shape": sh, "material": mname, "npts": npts, "maxlen": ml, "scale": scale})
     for mname, knd in mats:
         if knd != "solid":
             continue
